@@ -4,6 +4,7 @@
 //@ def quick NIN=7
 //@ def thorough NIN=10
 //@ cbmc all --unwind 12 --unwinding-assertions
+//@ cbmc all --arrays-uf-always
 //@ entry h_scanCharRef
 //@ note W: complete for every character sequence of length <= NIN after '&#' (covers every value <= 0x10FFFF in hex, 7 decimal digits in quick / all in thorough, plus overflowing digits)
 //@ note reader abstraction (trusted stub): ReaderMgr::peekNextChar/getNextChar/skippedChar deliver a symbolic character sequence INPUT[0..LEN) followed by end-of-input (0); emitError records the codes
@@ -14,7 +15,9 @@
 
 struct { XMLCh a[NIN]; } INPUT; XMLSize_t LEN, POS;
 int ERR_COUNT, ERR_FATAL_COUNT, ERR_LAST;
-_Bool XMLCHAR[65536], CONTROL[65536];
+struct { _Bool a[65536]; } XMLCHAR_T, CONTROL_T;   /* nondet via VERIF_INPUT (globals are zero-initialised under cbmc) */
+#define XMLCHAR (XMLCHAR_T.a)
+#define CONTROL (CONTROL_T.a)
 
 static XMLCh RM_peekNextChar(void) { return POS < LEN ? INPUT.a[POS] : 0; }
 static XMLCh RM_getNextChar(void) { return POS < LEN ? INPUT.a[POS++] : 0; }
@@ -55,8 +58,10 @@ static int spec_charref(const XMLCh *s, XMLSize_t n, uint32_t *val, XMLSize_t *u
 
 void h_scanCharRef(void)
 {
-  VERIF_INPUT(INPUT); VERIF_INPUT(LEN);
+  VERIF_INPUT(INPUT); VERIF_INPUT(LEN); VERIF_INPUT(XMLCHAR_T); VERIF_INPUT(CONTROL_T);
   VERIF_ASSUME(LEN <= NIN);
+  for (XMLSize_t k = 0; k < NIN; k++) VERIF_ASSUME(k >= LEN || INPUT.a[k] != 0);   /* 0 is the reader's end-of-input value */
+  VERIF_ASSUME(!XMLCHAR[0] && !CONTROL[0]);   /* #x0 is in neither class (proved of the real tables in chartab_*): '&#;' and '&#0;' rely on it */
   POS = 0; ERR_COUNT = 0; ERR_FATAL_COUNT = 0; verif_thrown = 0;
   XMLCh first = 0x1234, second = 0x1234;
   bool ok = XMLScanner_scanCharRef(&first, &second);
@@ -64,8 +69,9 @@ void h_scanCharRef(void)
 
   uint32_t v = 0; XMLSize_t used = 0;
   int wf = spec_charref(INPUT.a, LEN, &v, &used);
-  int legal = wf && v <= 0x10FFFF && !(v >= 0xD800 && v <= 0xDFFF) && v != 0xFFFE && v != 0xFFFF
-              && (v >= 0x10000 || XMLCHAR[v] || CONTROL[v]);
+  /* BMP legality is table-driven (XMLCHAR||CONTROL == production [2] Char of the reader's version, no surrogates,
+     proved in chartab_*); #xFFFE/#xFFFF and everything above #x10FFFF are rejected whatever the tables say */
+  int legal = wf && ((v >= 0x10000 && v <= 0x10FFFF) || (v <= 0xFFFD && (XMLCHAR[v] || CONTROL[v])));
   if (legal) {
     __CPROVER_assert(ok && !verif_thrown && ERR_COUNT == 0, "C02: a well-formed reference to a legal character is accepted without error");
     __CPROVER_assert(POS == used, "C03: exactly the reference is consumed");
